@@ -102,11 +102,57 @@ class EvalDomain(EffectDomain):
         return None
 
 
-def run_eval(facts, tree, extra=None, budget=200000):
-    """Summary of eval::eval(q, node 0, bias) on a scripted tree -> (dom, it, outcomes)."""
+def constant_value(facts, tag="c"):
+    adt = facts.adt("db::Constant")
+    names = [f["name"] for f in adt["variants"][0]["fields"]]
+    fields = []
+    for n in names:
+        if n == "value":
+            fields.append(Agg("adt", "rational::Rational", 0, "Rational", (Sym(tag + ".value"),)))
+        elif n == "unit":
+            fields.append(Agg("adt", "compound::Compound", 0, "Compound", (Sym(tag + ".unit"),)))
+        else:
+            fields.append(Sym("%s.%s" % (tag, n)))
+    return Agg("adt", "db::Constant", 0, "Constant", fields)
+
+
+def prior_description(facts, k=0):
+    return Agg("adt", "query::Description", 0, "Constant", (Sym("prior%d.text" % k), constant_value(facts, "prior%d" % k)))
+
+
+def query_value(facts, it, store, describe=None, prior=()):
+    """A Query with a symbolic (or fixed) describe option and an addressable description list holding `prior` (arbitrary
+    earlier descriptions): (store, ref, slot of the list)."""
+    from ..absint.stdmodels import Seq
+    store, dref = it.fresh_slot(store, Seq(prior))
+    adt = facts.adt("query::Query")
+    names = [f["name"] for f in adt["variants"][0]["fields"]]
+    opt = Agg("adt", "query::Options", 0, "Options", (Sym("describe") if describe is None else Const(bool(describe)),))
+    vals = {"source": Sym("source"), "db": Sym("db"), "options": opt, "descriptions": dref}
+    q = Agg("adt", "query::Query", 0, "Query", tuple(vals.get(n, Sym("q." + n)) for n in names))
+    store, qref = it.fresh_slot(store, q)
+    return store, qref, dref
+
+
+def lookup_oracle(facts):
+    """Db::lookup as an effect: Ok(Some(Match::Constant(c))), Ok(None) or Err."""
+    def extra(dom, it, nm, args, vals, store):
+        if nm == "db::Db::lookup" and len(vals) == 2:
+            st = dom.with_log(store, ("lookup", vals[1]))
+            m = Agg("adt", "db::Match", 0, "Constant", (constant_value(facts),))
+            return [(ok(some(m)), st), (ok(NONE), dom.with_log(st, ("lookup-miss",))), (err(Sym("lookup_error")), dom.with_log(st, ("lookup-failed",)))]
+        return None
+    return extra
+
+
+def run_eval(facts, tree, extra=None, budget=200000, with_query=False, describe=None, prior=()):
+    """Summary of eval::eval(q, node 0, bias) on a scripted tree -> (dom, it, outcomes[, ref of the description list])."""
     body = facts.fn("eval::eval")
     dom = EvalDomain(facts, tree, extra=extra)
     it = core.Interp(facts, dom, budget=budget)
-    q = Agg("adt", "query::Query", 0, "Query", ())
+    if with_query:
+        st, qref, dref = query_value(facts, it, {}, describe, prior)
+        outs = it.run(body, [qref, node(0), Sym("bias")], st)
+        return dom, it, outs, dref
     outs = it.run(body, [Sym("q"), node(0), Sym("bias")], {})
     return dom, it, outs
